@@ -22,6 +22,7 @@ func init() {
 			c.run("C02-9", "GUARD-DOM: after a resume the receiver cross-checks the sender's remaining size against its own truncation offset", c02Resume)
 			c.run("C02-10", "GUARD-DOM: protocol-1 data loops send/write, hash and count the same chunk and stop at the announced size", c02V1Stream)
 			c.run("C02-11", "GUARD-DOM (interprocedural): no acknowledgement of the MD5 step before the digest comparison", c02AckAfterVerify)
+			c.run("C02-12", "SIBLING/LITERAL: the per-chunk ack line — separator, order of the two numbers, base and width", c02AckFormat)
 			c.run("C02-8", "MUST-PASS: no error result of the transfer layer is dropped; every nil-test's non-nil edge fails", c02ErrorDiscipline)
 		})
 }
@@ -487,7 +488,25 @@ func c02Framing(c *Ctx) {
 		if n == 0 {
 			c.undecided(name+"/success", "no success return found")
 		}
+		// the separator looked for is the one the line writer puts after the type, and the type is what sits between '#' and it
+		sepOK := false
+		for _, ci := range callsIn(f, idIs("bytes.IndexByte")) {
+			if isConstIntV(':')(ci.Common().Args[1]) {
+				sepOK = true
+			}
+		}
+		c.check(sepOK, name+"/separator", c.pos(f.Pos()), "the type ends at the first ':' (what sendLine writes after the type)", "the reader looks for another separator than the ':' that sendLine writes after the type")
 	}
+	sl := c.fn("trzszTransfer.sendLine")
+	okFmt := false
+	for _, ci := range callsIn(sl, idIs("fmt.Sprintf")) {
+		fm, isS := constString(ci.Common().Args[0])
+		els, ok := sliceElems(ci.Common().Args[1])
+		if isS && fm == "#%s:%s%s" && ok && len(els) == 3 && isVar("typ")(strip(els[0].V)) && isVar("buf")(strip(els[1].V)) && isFieldLoad("Newline")(strip(els[2].V)) {
+			okFmt = true
+		}
+	}
+	c.check(okFmt, "sendLine/shape", c.pos(sl.Pos()), "a line is '#' + type + ':' + payload + negotiated newline", "sendLine no longer writes '#type:payload' + the negotiated newline")
 	f := c.fn("trzszTransfer.recvCompressFlag")
 	rc := callsWithConstArg(f, tT+"recvCheck", 1, "COMP")
 	if len(rc) != 1 {
@@ -1076,4 +1095,107 @@ func c02AckAfterVerify(c *Ctx) {
 	if n == 0 {
 		c.bad("recvFileMD5/ack-after-verify", c.pos(rf.Pos()), "the MD5 step is never acknowledged: the sender cannot learn that the file was verified")
 	}
+}
+
+// c02AckFormat: the per-chunk acknowledgement "#SUCC:<length>/<step>". Writer and parser agree on the separator and on
+// which number is which; protocol numbers are parsed in base 10 with 64 bits everywhere.
+func c02AckFormat(c *Ctx) {
+	w := c.fn("trzszTransfer.pipelineSendAck$1")
+	sep, okW := "", false
+	for _, ci := range callsIn(w, idIs("fmt.Sprintf")) {
+		fm, isS := constString(ci.Common().Args[0])
+		if !isS || !strings.HasPrefix(fm, "#SUCC:%d") {
+			continue
+		}
+		rest := fm[len("#SUCC:%d"):]
+		j := strings.Index(rest, "%d")
+		if j <= 0 {
+			continue
+		}
+		sep = rest[:j]
+		els, ok := sliceElems(ci.Common().Args[1])
+		if !ok || len(els) < 2 {
+			continue
+		}
+		// first number: the length taken from the ack channel; second: the saved-bytes counter
+		first, second := false, false
+		for _, l := range origins(strip(els[0].V), originOpts{}) {
+			if e, isE := l.V.(*ssa.Extract); isE {
+				if u, isU := e.Tuple.(*ssa.UnOp); isU && u.Op == token.ARROW && chanName(u.X) == "ackChan" {
+					first = true
+				}
+			}
+		}
+		if call, _ := callOf(strip(els[1].V)); call != nil && isAtomicOnField(call, "savedSteps", "Load") {
+			second = true
+		}
+		okW = first && second
+	}
+	c.check(okW && sep != "", "pipelineSendAck/writes-length-then-step", c.pos(w.Pos()), "the ack line carries the chunk length first and the saved-bytes counter second, separated by '"+sep+"'", "the per-chunk ack line does not carry (chunk length, saved bytes) in that order")
+	p := c.fn("trzszTransfer.pipelineRecvCurrentAck")
+	okSep, okN := false, false
+	var tokens ssa.Value
+	for _, ci := range callsIn(p, idIs("strings.Split")) {
+		if s, isS := constString(ci.Common().Args[1]); isS && s == sep {
+			okSep = true
+			tokens = ci.Value()
+		}
+	}
+	c.check(okSep, "pipelineRecvCurrentAck/separator", c.pos(p.Pos()), "the parser splits the ack at the separator the writer uses", "the parser splits the ack at another separator than the writer puts between the two numbers")
+	okN = factCmpAnywhere(p, token.NEQ, func(v ssa.Value) bool { lc, _ := callOf(v); return lc != nil && calleeID(&lc.Call) == "builtin len" && tokens != nil && lc.Call.Args[0] == tokens }, isConstIntV(2)) ||
+		factCmpAnywhere(p, token.EQL, func(v ssa.Value) bool { lc, _ := callOf(v); return lc != nil && calleeID(&lc.Call) == "builtin len" && tokens != nil && lc.Call.Args[0] == tokens }, isConstIntV(2))
+	c.check(okN, "pipelineRecvCurrentAck/two-numbers", c.pos(p.Pos()), "the parser insists on exactly two numbers", "the parser does not test for exactly two numbers")
+	// which token becomes which result
+	eachInstr(p, func(in ssa.Instruction) {
+		r, ok := in.(*ssa.Return)
+		if !ok || !isNilErrReturn(in) {
+			return
+		}
+		idxOf := func(v ssa.Value) int64 {
+			call, i := callOf(v)
+			if call == nil || i != 0 || calleeID(&call.Call) != "strconv.ParseInt" {
+				return -1
+			}
+			ld, isLd := strip(call.Call.Args[0]).(*ssa.UnOp)
+			if !isLd {
+				return -1
+			}
+			ia, isIA := ld.X.(*ssa.IndexAddr)
+			if !isIA || ia.X != tokens {
+				return -1
+			}
+			k, _ := constInt(ia.Index)
+			return k
+		}
+		c.check(idxOf(retVal(r, 0)) == 0 && idxOf(retVal(r, 1)) == 1, "pipelineRecvCurrentAck/length-then-step", c.ipos(r), "the first number is returned as the acknowledged length, the second as the saved step", "the parser returns the two numbers in the other order than the writer sends them")
+	})
+	// base and width of every protocol number
+	reach := c.reachableFrom(c.fn("trzszTransfer.sendFiles"), c.fn("trzszTransfer.recvFiles"))
+	n := 0
+	for _, f := range c.AllFns {
+		if !reach[f] {
+			continue
+		}
+		for _, ci := range callsIn(f, idIs("strconv.ParseInt", "strconv.ParseUint")) {
+			n++
+			c.check(isConstIntV(10)(ci.Common().Args[1]) && isConstIntV(64)(ci.Common().Args[2]), c.fnName(f)+"/ParseInt(10,64)", c.ipos(ci), "protocol numbers are parsed in base 10, 64 bits", "a protocol number is parsed with another base / width than it is written with (%d of an int64)")
+		}
+	}
+	if n < 4 {
+		c.undecided("ParseInt/sites", "fewer protocol-number parsers than expected")
+	}
+}
+
+// factCmpAnywhere: some branch of f tests (op, px, py) (in either polarity / spelling).
+func factCmpAnywhere(f *ssa.Function, op token.Token, px, py func(ssa.Value) bool) bool {
+	for _, b := range f.Blocks {
+		if i := blockIf(b); i != nil && b.Succs[0] != b.Succs[1] {
+			for k := 0; k < 2; k++ {
+				if factCmp(edgeFactsTo(b, b.Succs[k]), op, px, py) {
+					return true
+				}
+			}
+		}
+	}
+	return false
 }
